@@ -657,7 +657,11 @@ func (ab *rulesPair) adaptGroups(lb []string) {
 			} else if name := ab.findGroupOnDevice(gb); name != "" {
 				lb[i] = name
 			} else {
+				// Group will be transferred to device.
 				// Name may have been changed before, to prevent name clashes.
+				// Remember this name, such that this group isn't identified
+				// with some other group on device later.
+				gb.nameOnDevice = gb.Name
 				lb[i] = gb.Name
 			}
 		}
